@@ -111,7 +111,7 @@ var c01Profile = &sim.Profile{
 		"confirm": 3, "oauth_start": 5, "oauth_cb": 7, "totp_validate": 6, "sms_validate": 6, "totp_setup": 1, "totp_confirm": 1,
 		"sms_setup": 1, "sms_confirm": 1, "visit": 6, "get": 2, "advance": 3, "steal": 4, "dropsid": 3, "raw": 4, "admin_lock": 1,
 		"admin_unlock": 1, "admin_updatepw": 1, "admin_startconfirm": 1, "appset": 1, "totp_remove": 1, "sms_remove": 1, "regen": 1,
-		"ev_start": 1, "ev_end": 1,
+		"ev_start": 1, "ev_end": 1, "faultnext": 3,
 	},
 	MinLen: 25, MaxLen: 55,
 }
